@@ -5,17 +5,25 @@ import numpy as np
 import core
 import solvercorr as sc
 import solverslices
+import roundedobs
 
 THEOREMS_SINGLE = ['C04_linear_single_bound', 'Single_instance_laws']
+# theorems that survive rounding (Properties/RoundedProps.v): exact power-of-two homogeneity in rounded arithmetic
+THEOREMS_ROUNDED = ['C04_homogeneous_in_rounded_arithmetic', 'Rounded_similarity', 'Rounded_float_instance_same_formulas',
+                    'Rounded_binary_rounding_is_homogeneous']
+ROUNDED_THEOREM_OF = {"source": "C04_homogeneous_in_rounded_arithmetic", "velocity": "C07_velocity_scaling_in_rounded_arithmetic",
+                      "length": "C07_length_scaling_in_rounded_arithmetic"}
 THEOREMS = ["C04_linear", "C04_background", "C04_footprint_shape_only"]
 TRUSTED = [
     "Model/Solver.v is hand-written in frequency-set form; tied to bldfm.solver by (A) float correspondence of whole solves (FloatOps, vm_compute) and (B) the slice translator + Bridge/SolverBridge.v for every scalar kernel",
     "pyFFTW is modelled by the definition of the DFT; numba-compiled ivp_solver by its Python source",
-    "the theorems assume the field laws `Laws O` (exact complex arithmetic); IEEE rounding is not covered",
+    "the theorems assume the field laws `Laws O` (exact complex arithmetic); IEEE rounding is not covered by them. Exception: the theorems of Properties/RoundedProps.v are about the model in ROUNDED arithmetic (RndOps: every scalar operation followed by an arbitrary rounding function, no field laws) and assume only that the rounding commutes with multiplication by the scale factor (proved for binary rounding to any precision and powers of two, unbounded exponent range: overflow and subnormals are not modelled)",
+    "RndOps and the executable FloatOps are instances of one construction (Base/PairOps.v; FloatOps = PairOps FloatScalar by conversion); numpy/numba/pyFFTW use their own (also homogeneous) complex division, square root and FFT algorithms: that the code's results rescale bit for bit is observed on the check's cases in every run (harness/roundedobs.py), not proved",
 ]
 ASSUMPTIONS = [
     "C04_linear is stated for double-precision storage (a_single = false): complex64 storage rounding is not linear; for single storage C04_linear_single_bound (Properties/SinglePrecisionProps.v; arbitrary rounding function with |rnd x - x| <= eps |x|; stdlib real axioms) bounds the superposition defect of every cell by eps * Blin, Blin = sum of the moduli of the exact amplitudes of the three runs (concentration in the analytic branch: eps(2+eps))",
     "the linear combination uses real scalars (cre s = s)",
+    "C04_homogeneous_in_rounded_arithmetic: dispersion mode; source and background times s != 0 with rnd (s x) = s rnd x for the arithmetic rounding and for the complex64 storage rounding; both precisions, numerical and analytic branch, all levels, error outcomes included",
 ]
 
 
@@ -32,8 +40,11 @@ def gen(ctx):
 def check(ctx):
     core.check_properties_file(ctx, "Properties/C04.v", THEOREMS, core.AX_NONE)
     core.check_properties_file(ctx, "Properties/SinglePrecisionProps.v", THEOREMS_SINGLE, core.AX_REALS, coqchk=False)
+    core.check_properties_file(ctx, "Properties/RoundedProps.v", THEOREMS_ROUNDED, core.AX_REALS, coqchk=False)
     solverslices.run(ctx)
     cases = gen(ctx)
+    # the bit-equality solve(2^e q, 2^e bg) = 2^e solve(q, bg) that the rounded-arithmetic theorem predicts, observed on the code
+    roundedobs.observe(ctx, "C04", cases, ["source"], ROUNDED_THEOREM_OF, limit=(24 if ctx.thorough else 8))
     recs = sc.correspond(ctx, cases, "c04_")
     sc.summarize(ctx, cases, recs,
                  "random small solves emphasising non-zero background, sign-changing sources, analytic and numerical branch, footprint and dispersion; non-trivial = every case (all have >= 2 retained modes); distinct by full argument description",
